@@ -9,8 +9,19 @@
   Parameters (trusted, not modelled):
     * `Regex`  — the regular-expression engine: `compile p = none` iff `p` is not valid RE2 syntax, otherwise
                  the predicate "the text has a match of p"; a leading `(?i)` makes the pattern case-insensitive.
-    * `sh`     — the text of a scalar (`fmt` verb `%v`): decimal integers, `true`/`false`, shortest float text.
-    * detectors of the secret scan (keywords + `fromData`).
+    * `sh`     — the text of a scalar: decimal integers, `true`/`false`, shortest float text.  For the SEARCH it is the
+                 text PostgreSQL prints for the value (a float64 of magnitude 1e6 … 1e15 positionally: `1000000`, not
+                 `%v`'s `1e+06`; fix search/05), for the secret SCAN `fmt`'s `%v`.
+    * detectors of the secret scan (keywords + `fromData`): what a detector reports depends on the WHOLE text it is
+                 given, so the view of the scan is stated per cell text (`scanText`, `cellFindings`).
+
+  Interpretations:
+    * MaxResults: a positive value is a bound; 0 is the API's documented "unlimited" (`// Maximum results (0 = unlimited)`),
+      and negative values are treated the same.  The property's "never more than the requested maximum" is read with it.
+    * case-insensitive = the pattern with RE2's `(?i)` flag in front (`effPattern`); the meaning of `(?i)` (Go: Unicode
+      simple case folding) belongs to the engine.
+    * values: the kinds pgread's decoders produce (`GoVal`); hand-built dumps may also hold Go `[]byte`:
+      Spec/SearchBytes.lean.
 -/
 import PgVerif.Basic.Canon
 namespace PgVerif.Spec.Search
@@ -205,5 +216,59 @@ def fmtKvs (sh : GoVal → Bytes) : List (Bytes × GoVal) → List (Bytes × Byt
   | [] => []
   | (k, v) :: rest => (k, fmtV sh v) :: fmtKvs sh rest
 end
+
+/-! ### the texts the search tries the pattern on (the property's wording, as a flat list) -/
+
+mutual
+/-- every text of a value that can make it match: a string itself; for a JSON object its keys and (recursively) the
+texts of its values; for an array (recursively) the texts of its elements; for any other scalar its text; NULL has none -/
+def searchTexts (sh : GoVal → Bytes) : GoVal → List Bytes
+  | .nil => []
+  | .str s => [s]
+  | .arr xs => searchTextsList sh xs
+  | .obj kvs => searchTextsKvs sh kvs
+  | .bool b => [sh (.bool b)]
+  | .int i => [sh (.int i)]
+  | .f64 b => [sh (.f64 b)]
+  | .f32 b => [sh (.f32 b)]
+def searchTextsList (sh : GoVal → Bytes) : List GoVal → List Bytes
+  | [] => []
+  | x :: xs => searchTexts sh x ++ searchTextsList sh xs
+def searchTextsKvs (sh : GoVal → Bytes) : List (Bytes × GoVal) → List Bytes
+  | [] => []
+  | (k, v) :: rest => k :: (searchTexts sh v ++ searchTextsKvs sh rest)
+end
+
+/-! ### what the secret scan must report
+
+The scanner is trufflehog's detector set run cell by cell: the text of a cell is handed to every detector whose
+keyword pre-filter lets it through (a detector without keywords always runs; otherwise one of its keywords must occur
+in THAT text, as is or ignoring ASCII case), and each result becomes a finding with the cell's coordinates.  A cell
+whose text is shorter than 8 bytes is not scanned.  What a detector reports on a text is the parameter `fromData`. -/
+
+/-- the keyword pre-filter of one detector on one text -/
+def keywordPass (det : Detector) (text : Bytes) : Bool :=
+  det.keywords.isEmpty || det.keywords.any fun kw => occursIn kw text || occursIn (lower kw) (lower text)
+
+/-- the results of the detector set on one text, detector by detector (a failing detector contributes nothing) -/
+def scanText (dets : List Detector) (text : Bytes) : List DetResult :=
+  dets.flatMap fun det => if keywordPass det text then (det.fromData text).getD [] else []
+
+/-- the findings of one cell -/
+def cellFindings (dets : List Detector) (sh : GoVal → Bytes) (db tbl : Bytes) (i : Nat) (cv : Bytes × GoVal) : List Finding :=
+  if (fmtV sh cv.2).length < 8 then []
+  else (scanText dets (fmtV sh cv.2)).map fun r =>
+    { detector := r.detector, db := db, table := tbl, col := cv.1, row := i, raw := r.raw }
+
+/-- the view of the secret scan: the findings of every cell, in (database, table, row, column) order -/
+def expectedFindings (dets : List Detector) (sh : GoVal → Bytes) (d : Dump) : List Finding :=
+  d.flatMap fun D => D.tables.flatMap fun t => t.rows.zipIdx.flatMap fun ri =>
+    (rowCells t.columns ri.1).flatMap (cellFindings dets sh D.name t.name ri.2)
+
+/-- the findings of every binding of every row, enumerated in the order in which the rows STORE their bindings
+(no column order involved): "each cell once" -/
+def allCellFindings (dets : List Detector) (sh : GoVal → Bytes) (d : Dump) : List Finding :=
+  d.flatMap fun D => D.tables.flatMap fun t => t.rows.zipIdx.flatMap fun ri =>
+    ri.1.flatMap (cellFindings dets sh D.name t.name ri.2)
 
 end PgVerif.Spec.Search
